@@ -50,6 +50,7 @@ def check(ck: Checker) -> None:
     _md5(ck)
     _savepair(ck)
     _failed_not_recorded(ck)
+    _preexisting_not_recorded(ck)
     from .build_common import check_zip_alignment_all
 
     nz = check_zip_alignment_all(ck, "C13.savepair", prog_func(ck, "index.checkout", "_create_files"),
@@ -595,3 +596,34 @@ def _failed_not_recorded(ck: Checker) -> None:
                        "a hash-state row is recorded only for destinations the copy did not report as failed",
                        "a hash-state row (destination, target hash, stat) is recorded although the copy of that entry may have failed and been handed to the error callback: a file that already existed at the destination is then vouched for with the target's hash",
                        witness=g.fmt_path(w) if w else None, construct=f"{x.text()[:50]} / not failed")
+
+
+def _preexisting_not_recorded(ck: Checker) -> None:
+    """index.checkout._create_files: with a hard-link / symlink link type the bulk transfer leaves a destination that
+    already exists alone *without reporting it* (dvc_objects.fs.generic.transfer: FileExistsError -> 'skipping').  Such a
+    destination must not get a hash-state row either: the set the row guard tests also receives, before the transfer,
+    the destinations that already exist."""
+    from ..cfg import calls_at
+
+    prog = ck.prog
+    fn = prog.func("index.checkout", "_create_files")
+    g = ck.cfg(fn)
+    guards = set()
+    for t in g.nodes.values():
+        e = t.ast
+        if t.kind == "test" and isinstance(e, ast.Compare) and len(e.ops) == 1 and isinstance(e.ops[0], (ast.In, ast.NotIn)) and isinstance(e.comparators[0], ast.Name):
+            nm = e.comparators[0].id
+            if any(d.kind in ("assign", "annassign") and isinstance(d.value, ast.Call) and norm(d.value) == "set()" for d in scope_of(fn).get(nm)):
+                guards.add(nm)
+    tr = [n for n in g.nodes.values() for c in calls_at(n) if call_name(c) == "transfer" and any(k.arg == "links" for k in c.keywords)]
+    ck.floor("C13.savepair", len(tr), 1, "bulk transfer calls in _create_files")
+    ok = False
+    for n in g.nodes.values():
+        for c in calls_at(n):
+            if is_method_call(c, "update", "add") and isinstance(c.func.value, ast.Name) and c.func.value.id in guards and c.args:
+                txt = norm(c.args[0])
+                if ("exists(" in txt) and any(n.id in {x for x in g.reach([n.id])} and t_.id in g.reach([n.id]) for t_ in tr):
+                    ok = True
+    ck.require(ok, "C13.savepair", fn, tr[0], "destinations that already exist are excluded from the hash-state update when links may be skipped",
+               "nothing excludes a destination that already existed from the hash-state update: with a hardlink / symlink link type the bulk transfer skips an existing destination silently, so a pre-existing file with different content gets the target's hash recorded in the state",
+               construct="_create_files / pre-existing destinations excluded")
